@@ -295,3 +295,20 @@ def sign_edges(b, param):
                     elif n == "Greater":
                         out["pos"].append((j, tb))
     return out
+
+
+def param_origin(b, place_or_op, depth=0):
+    """origin() that also looks through *named* snapshots of a parameter (`let (index, id) = pair;`, closure patterns
+    `|(_, id)| id`): returns (param local, [fields]) when the value is a (field of a) parameter, else the plain origin."""
+    pl = place_or_op if isinstance(place_or_op, list) else cfg.op_place(place_or_op)
+    if pl is None:
+        return None
+    r, f = cfg.origin(b, pl)
+    if 0 < r <= b.d["argc"] or depth > 3:
+        return r, f
+    ds = [d for d in cfg.defs(b).get(r, []) if d[0] != "partial"]
+    if len(ds) == 1 and ds[0][0] == "assign" and ds[0][2]["k"] in ("use", "cast") and cfg.op_place(ds[0][2]["o"]):
+        r2, f2 = param_origin(b, ds[0][2]["o"], depth + 1)
+        if 0 < r2 <= b.d["argc"]:
+            return r2, f2 + f
+    return r, f
